@@ -48,7 +48,7 @@ class LoopSpec:
 class CallModel:
     """Trusted / assumed behaviour of a call that is not under contract (listed in evidence)."""
     def __init__(self, pattern, returns=None, post=(), modifies=(), raises=(), havoc_all=False, note="",
-                 ghost=None, pre=(), fresh=None):
+                 ghost=None, pre=(), fresh=None, kwargs=None, nargs=None):
         self.pattern = pattern
         self.returns = returns
         self.post = list(post)
@@ -59,6 +59,9 @@ class CallModel:
         self.note = note
         self.ghost = ghost
         self.fresh = fresh or {}
+        # call shape the model was written for: keyword names it covers (None: not checked) and positional count
+        self.kwargs = None if kwargs is None else list(kwargs)
+        self.nargs = nargs
 
 
 class Contract:
@@ -206,6 +209,13 @@ class Contract:
         return self
 
     def owns(self, *locs):
+        self.owns_.extend(locs)
+        return self
+
+    def immutable(self, *locs):
+        """'Class.field' locations that are assigned only in the class's own __init__ (checked syntactically over every
+        module of the package on each run): they keep their value across suspensions like owned locations."""
+        self.__dict__.setdefault("immutable_", []).extend(locs)
         self.owns_.extend(locs)
         return self
 
